@@ -301,6 +301,15 @@ fn check_project_in(ctx: &Ctx, p: &GenProject, t: &mut Tape, rec: &Rec, dir: &Pa
     };
     let want = multiset(reference.reports.iter().map(|r| shown_of_report(r, &reference.files)));
     rec.class("projects");
+    if p.failing_defs > 0 {
+        rec.class("projects_with_definition_failing_ssa_after_cfg_warning");
+    }
+    if p.failing_templates.iter().any(|n| p.files.iter().any(|f| f.r.src.contains(&format!("= {n}(")))) {
+        rec.class("projects_with_failing_template_instantiated");
+    }
+    if p.bom_files > 0 {
+        rec.class("projects_with_byte_order_mark");
+    }
     rec.class_n("definitions", reference.definitions as u64);
     let ids: std::collections::BTreeSet<String> = want.keys().map(|s| s.1.clone()).collect();
     let has_cfg_stage = ids.contains("CS0001");
